@@ -112,11 +112,32 @@ def gen_value(rng, shape_class, dtype):
     return np.asarray(v) if shape != () else (v.item() if hasattr(v, 'item') else v)
 
 
+LAYOUTS = ['C', 'F', 'transposed-view', 'strided-view', 'readonly']
+
+
+def relayout(v, layout):
+    """The same numbers in another memory layout (rank >= 2 only): the model must not depend on it."""
+    v = np.asarray(v)
+    if v.ndim < 2 or layout == 'C':
+        return np.ascontiguousarray(v)
+    if layout == 'F':
+        return np.asfortranarray(v)
+    if layout == 'transposed-view':
+        return np.ascontiguousarray(v.transpose()).transpose()          # non-contiguous view with v's shape
+    if layout == 'strided-view':
+        big = np.zeros((2 * v.shape[0],) + v.shape[1:], dtype=v.dtype)
+        big[::2] = v
+        return big[::2]
+    out = np.array(v)
+    out.setflags(write=False)
+    return out
+
+
 # ------------------------------------------------------------------ workload pieces
 def run_values(ctx, am, uc, DM):
     rec = ctx.rec
     n = ctx.pick(420, 8400)
-    dims = ['length', 'pressure', 'energy', 'charge', 'force']
+    dims = ['length', 'pressure', 'energy', 'charge', 'force', 'impulse', 'stiffness']
     for i in ctx.cases('values', n):
         rng = ctx.rng
         enc = ENCS[i % 3]
@@ -125,6 +146,12 @@ def run_values(ctx, am, uc, DM):
         if dtype in ('str', 'bool') and shape_class == 'scalar':
             dtype = 'float'
         v = gen_value(rng, shape_class, dtype)
+        layout = LAYOUTS[(i // 7) % len(LAYOUTS)]
+        if np.ndim(v) >= 2:
+            v = relayout(v, layout)
+            rec.count('values:layout:' + layout)
+            if not v.flags['C_CONTIGUOUS']:
+                rec.count('values:non-contiguous')
         with_unit = dtype == 'float' and (i // 105) % 2 == 0
         dim = dims[i % len(dims)]
         unit = U.names(dim)[int(rng.integers(0, len(U.names(dim))))] if with_unit else None
@@ -157,13 +184,16 @@ def run_values(ctx, am, uc, DM):
         if enc == 'json' and unit is not None:
             stored = np.asarray(json.loads(text)['q']['value'], float).reshape(np.shape(v))
             # default configuration: working length = angstrom, energy = eV, charge = e (hence pressure eV/angstrom^3, force eV/angstrom)
-            base = {'length': 'angstrom', 'pressure': 'eV/angstrom^3', 'energy': 'eV', 'charge': 'e', 'force': 'eV/angstrom'}[dim]
-            exp = U.convert(np.asarray(v, float), dim, base, unit)
+            exp = U.from_default_working(np.asarray(v, float), dim, unit)
+            if any(op in unit for op in ('/', '*')) and unit.count('/') + unit.count('*') >= 2:
+                rec.count('values:compound-unit')
             rec.close(0.0, stored, exp, 'numbers in the text are the value expressed in the stated unit', 'value:text-numbers', rtol=U.RTOL, unit=unit)
             rec.check(json.loads(text)['q'].get('unit') == unit, 'the text names the unit used', 'value:text-unit')
             rec.count('monitor:text-observer')
     rec.floor('monitor:value-roundtrip', 100)
     rec.floor('monitor:text-observer', 10)
+    rec.floor('values:non-contiguous', 20)
+    rec.floor('values:compound-unit', 3)
 
 
 def gen_system(rng, am, i, natoms=None, with_units=False, uc=None):
@@ -201,6 +231,12 @@ def gen_system(rng, am, i, natoms=None, with_units=False, uc=None):
         masses = tuple(mvals[:-1] + [None]) if ntypes > 1 else tuple(mvals)
     pbc = cells.PBCS[i % 8]
     box = am.Box(vects=cell['vects'], origin=cell['origin'])
+    # hand the arrays over in a non-contiguous layout in two cases out of three (values kept in `truth` below)
+    lay = ['C', 'F', 'transposed-view'][i % 3]
+    pos = relayout(pos, lay)
+    props['stress'] = relayout(props['stress'], lay)
+    props['vel'] = relayout(props['vel'], lay)
+    props['imat'] = relayout(props['imat'], lay)
     atoms = am.Atoms(atype=atype, pos=pos, **props)
     system = am.System(atoms=atoms, box=box, pbc=pbc, symbols=symbols, masses=masses, safecopy=True)
     truth = dict(vects=cell['vects'].copy(), origin=cell['origin'].copy(), atype=atype.copy(), pos=pos.copy(), rel=rel,
@@ -514,6 +550,10 @@ def run_xconfig(ctx, am, uc, DM):
             pu_vec = ['scaled', 'nm'][(i // 7) % 2]
             pu_q = ['e', 'C'][i % 2]
             pu_s = ['GPa', 'MPa', 'eV/angstrom^3'][i % 3]
+            imp_Ns = rng.normal(size=(natoms, 3)) * 1e-21                                # an impulse-like vector, N*s
+            pu_imp = U.names('impulse')[i % len(U.names('impulse'))]                      # incl. 'eV/angstrom*ps': (a/b)*c
+            k_Nm = rng.uniform(1, 50, natoms)                                             # a stiffness-like scalar, N/m
+            pu_k = U.names('stiffness')[(i // 2) % len(U.names('stiffness'))]             # incl. 'eV/angstrom/angstrom'
             text = None
             la, lb = length_name(acfg), length_name(bcfg)
 
@@ -525,10 +565,12 @@ def run_xconfig(ctx, am, uc, DM):
                 if obj == 'system':
                     box = am.Box(vects=to_work(cell['vects']), origin=to_work(cell['origin']))
                     atoms = am.Atoms(atype=np.ones(natoms, int), pos=to_work(pos_A), charge=uc.set_in_units(q_e, 'e'),
-                                     stress=uc.set_in_units(s_gpa, 'GPa'), site=to_work(vec_A))
+                                     stress=uc.set_in_units(s_gpa, 'GPa'), site=to_work(vec_A),
+                                     impulse=uc.set_in_units(imp_Ns, 'N*s'), spring=uc.set_in_units(k_Nm, 'N/m'))
                     sysA = am.System(atoms=atoms, box=box, symbols='Al')
                     text = sysA.dump('system_model', format=enc, box_unit=lu,
-                                     prop_unit={'atype': None, 'pos': pu_pos, 'charge': pu_q, 'stress': pu_s, 'site': pu_vec})
+                                     prop_unit={'atype': None, 'pos': pu_pos, 'charge': pu_q, 'stress': pu_s, 'site': pu_vec,
+                                                'impulse': pu_imp, 'spring': pu_k})
                 elif obj == 'box':
                     m = am.Box(vects=to_work(cell['vects']), origin=to_work(cell['origin'])).model(length_unit=lu)
                     text = m.json() if enc == 'json' else m.xml()
@@ -547,6 +589,17 @@ def run_xconfig(ctx, am, uc, DM):
                               np.asarray(d['box']['bvect']['value'], float), U.convert(cell['vects'][1], 'length', 'angstrom', lu),
                               'text written under any configuration holds the physical value in the stated unit', 'xconfig:text-numbers',
                               rtol=1e-9, cfg=an)
+                elif obj == 'system':
+                    for q in d['atomic-system']['atoms']['property']:
+                        if q['name'] == 'impulse':
+                            rec.close(1e-12 * np.abs(imp_Ns).max() / U.si('impulse', pu_imp), np.asarray(q['data']['value'], float).reshape(-1, 3),
+                                      U.convert(imp_Ns, 'impulse', 'N*s', pu_imp), 'text written under any configuration holds the physical value in the stated (compound) unit',
+                                      'xconfig:text-numbers:compound', rtol=1e-8, cfg=an, unit=pu_imp)
+                        elif q['name'] == 'spring':
+                            rec.close(0.0, np.asarray(q['data']['value'], float).reshape(-1), U.convert(k_Nm, 'stiffness', 'N/m', pu_k),
+                                      'text written under any configuration holds the physical value in the stated (compound) unit',
+                                      'xconfig:text-numbers:compound', rtol=1e-8, cfg=an, unit=pu_k)
+                    rec.count('monitor:xconfig-text-compound')
                 elif obj == 'elastic':
                     rec.close(1e-9 * np.abs(cij_gpa).max() * U.si('pressure', 'GPa') / U.si('pressure', pu_s),
                               np.asarray(d['elastic-constants']['Cij']['value'], float).reshape(6, 6), U.convert(cij_gpa, 'pressure', 'GPa', pu_s),
@@ -578,6 +631,8 @@ def run_xconfig(ctx, am, uc, DM):
                     rec.close(tolL * 3, uc.get_in_units(s2.atoms.site, 'angstrom'), vec_A, 'physical vector property independent of working units', key + ':site:' + ('scaled' if pu_vec == 'scaled' else 'unit'), A=an, B=bn, unit=pu_vec)
                     rec.close(1e-9 * np.abs(q_e).max(), uc.get_in_units(s2.atoms.charge, 'e'), q_e, 'physical charges independent of working units', key + ':charge', A=an, B=bn)
                     rec.close(1e-9 * np.abs(s_gpa).max(), uc.get_in_units(s2.atoms.stress, 'GPa'), s_gpa, 'physical tensor property independent of working units', key + ':stress', A=an, B=bn)
+                    rec.close(1e-9 * np.abs(imp_Ns).max(), uc.get_in_units(s2.atoms.impulse, 'N*s'), imp_Ns, 'physical value stored with a compound unit independent of working units', key + ':compound-unit', A=an, B=bn, unit=pu_imp)
+                    rec.close(0.0, uc.get_in_units(s2.atoms.spring, 'N/m'), k_Nm, 'physical value stored with a compound unit independent of working units', key + ':compound-unit', rtol=1e-9, A=an, B=bn, unit=pu_k)
                 elif obj == 'box':
                     b2 = am.Box(model=text)
                     rec.close(tolL, uc.get_in_units(b2.vects, 'angstrom'), cell['vects'], 'physical cell vectors independent of working units', key + ':vects', A=an, B=bn)
@@ -595,6 +650,7 @@ def run_xconfig(ctx, am, uc, DM):
     rec.floor('monitor:xconfig-read', 60)
     rec.floor('monitor:xconfig-text', 10)
     rec.floor('monitor:xconfig-named-length', 20)
+    rec.floor('monitor:xconfig-text-compound', 5)
 
 
 def run(ctx):
